@@ -278,6 +278,66 @@ double ulp_double(double x)
     return up - ax;
 }
 
+// value within 8 (double) / 4 (float) ulp of host strtod/strtof and end pointer at the end of the literal
+static void check_parse(Case &c, PEntry pe, const std::string &lit, Exact &blk, unsigned char term)
+{
+    char *end = nullptr;
+    double ref = strtod(lit.c_str(), nullptr);
+    double got;
+    bool have_end = true;
+    double tol;
+    switch (pe)
+    {
+    case P_ATOF32:
+    {
+        float reff = strtof(lit.c_str(), nullptr);
+        if (!std::isfinite(reff) || (reff != 0 && std::fabs(reff) < FLT_MIN))
+        {
+            c.log(" (outside float's normal range: skipped)");
+            return;
+        }
+        got = igris_atof32(blk.c(), &end);
+        ref = reff;
+        tol = 4 * ulp_float(reff);
+        break;
+    }
+    case P_ATOF64:
+        got = igris_atof64(blk.c(), &end);
+        tol = 8 * ulp_double(ref);
+        break;
+    case P_IGRIS_STRTOD:
+        got = igris_strtod(blk.c(), &end);
+        tol = 8 * ulp_double(ref);
+        break;
+    case P_LIBC_STRTOD:
+        got = igc_strtod(blk.c(), &end);
+        tol = 8 * ulp_double(ref);
+        break;
+    default:
+        got = igc_atof(blk.c());
+        have_end = false;
+        tol = 8 * ulp_double(ref);
+    }
+    if (pe != P_ATOF32 && (!std::isfinite(ref) || (ref != 0 && std::fabs(ref) < DBL_MIN)))
+    {
+        c.log(" (outside double's normal range: value not compared)");
+    }
+    else
+    {
+        double err = std::fabs(got - ref);
+        VP_CHECK(err <= tol && std::isfinite(got), "atof_value", "%s(\"%s\") = %.17g, strtod gives %.17g (off by %.1f ulp)", pentry_name[pe], lit.c_str(),
+                 got, ref, err / (tol / (pe == P_ATOF32 ? 4 : 8)));
+        double ulps = err / (tol / (pe == P_ATOF32 ? 4 : 8));
+        if (ulps > 2)
+            c.label("err>2ulp");
+        else if (ulps > 0.5)
+            c.label("err>0.5ulp");
+    }
+    if (have_end)
+        VP_CHECK(end == blk.c() + lit.size(), "atof_end", "%s(\"%s\" + 0x%02x): end at offset %td, literal ends at %zu", pentry_name[pe], lit.c_str(),
+                 term, end ? end - blk.c() : -1, lit.size());
+}
+
 void t_atof(Src &s, Case &c)
 {
     PEntry pe = (PEntry)s.weighted({3, 3, 1, 2, 1});
@@ -374,61 +434,125 @@ void t_atof(Src &s, Case &c)
     if (nint == 0 && has_frac)
         c.label("leading_point");
 
-    char *end = nullptr;
-    double ref = strtod(lit.c_str(), nullptr);
-    double got;
-    bool have_end = true;
-    double tol;
-    switch (pe)
-    {
-    case P_ATOF32:
-    {
-        float reff = strtof(lit.c_str(), nullptr);
-        if (!std::isfinite(reff) || (reff != 0 && std::fabs(reff) < FLT_MIN))
+    check_parse(c, pe, lit, blk, term);
+}
+
+// Long literals of the same grammar: 20..60 significant digits, integer or fraction parts padded with up to 400
+// zeros (values far from what their digit count suggests, some overflowing to inf or underflowing to 0 for every
+// parser), long exponents that bring such values back into range.
+void t_atof_long(Src &s, Case &c)
+{
+    PEntry pe = (PEntry)s.weighted({3, 3, 1, 2, 1});
+    std::string lit;
+    int sign = (int)s.weighted({4, 2, 2});
+    if (sign == 1)
+        lit += '-';
+    if (sign == 2)
+        lit += '+';
+    auto digits = [&](int n, bool nonzero_first) {
+        uint64_t seed = s.u64();
+        int style = (int)s.below(4); // 0 pseudo-random, 1 all nines, 2 one then zeros, 3 repeated drawn digit
+        char d0 = (char)('0' + s.below(10));
+        for (int i = 0; i < n; i++)
         {
-            c.log(" (outside float's normal range: skipped)");
-            return;
+            seed = seed * 6364136223846793005ull + 1442695040888963407ull;
+            char d = style == 0 ? (char)('0' + (seed >> 33) % 10) : style == 1 ? '9' : style == 2 ? (i == 0 ? '1' : '0') : d0;
+            if (i == 0 && nonzero_first && d == '0')
+                d = '7';
+            lit += d;
         }
-        got = igris_atof32(blk.c(), &end);
-        ref = reff;
-        tol = 4 * ulp_float(reff);
-        break;
-    }
-    case P_ATOF64:
-        got = igris_atof64(blk.c(), &end);
-        tol = 8 * ulp_double(ref);
-        break;
-    case P_IGRIS_STRTOD:
-        got = igris_strtod(blk.c(), &end);
-        tol = 8 * ulp_double(ref);
-        break;
-    case P_LIBC_STRTOD:
-        got = igc_strtod(blk.c(), &end);
-        tol = 8 * ulp_double(ref);
-        break;
-    default:
-        got = igc_atof(blk.c());
-        have_end = false;
-        tol = 8 * ulp_double(ref);
-    }
-    if (pe != P_ATOF32 && (!std::isfinite(ref) || (ref != 0 && std::fabs(ref) < DBL_MIN)))
+    };
+    int shape = (int)s.weighted({3, 3, 3, 2});
+    int expo = 0;
+    bool has_exp = false;
+    switch (shape)
     {
-        c.log(" (outside double's normal range: value not compared)");
-    }
-    else
+    case 0: // many significant digits around the point
     {
-        double err = std::fabs(got - ref);
-        VP_CHECK(err <= tol && std::isfinite(got), "atof_value", "%s(\"%s\") = %.17g, strtod gives %.17g (off by %.1f ulp)", pentry_name[pe], lit.c_str(),
-                 got, ref, err / (tol / (pe == P_ATOF32 ? 4 : 8)));
-        double ulps = err / (tol / (pe == P_ATOF32 ? 4 : 8));
-        if (ulps > 2)
-            c.label("err>2ulp");
-        else if (ulps > 0.5)
-            c.label("err>0.5ulp");
+        int ni = (int)s.range(0, 40), nf = (int)s.range(ni ? 0 : 1, 40);
+        digits(ni, true);
+        if (nf || s.coin())
+            lit += '.';
+        digits(nf, false);
+        c.label("many_significant_digits");
+        break;
     }
-    if (have_end)
-        VP_CHECK(end == blk.c() + lit.size(), "atof_end", "%s(\"%s\" + 0x%02x): end at offset %td, literal ends at %zu", pentry_name[pe], lit.c_str(),
-                 term, end ? end - blk.c() : -1, lit.size());
+    case 1: // digits followed by a long run of zeros (large magnitude), maybe a negative exponent
+    {
+        int ni = (int)s.range(1, 25), nz = (int)s.range(20, 400);
+        digits(ni, true);
+        lit.append((size_t)nz, '0');
+        if (s.coin())
+        {
+            lit += '.';
+            digits((int)s.range(0, 10), false);
+        }
+        if (s.coin())
+        {
+            has_exp = true;
+            expo = -(int)s.range(0, ni + nz + 20);
+        }
+        c.label("trailing_zero_run");
+        break;
+    }
+    case 2: // 0.000...digits (tiny magnitude), maybe a positive exponent
+    {
+        int nz = (int)s.range(20, 400), nd = (int)s.range(1, 25);
+        if (s.coin())
+            lit += '0';
+        lit += '.';
+        lit.append((size_t)nz, '0');
+        digits(nd, true);
+        if (s.coin())
+        {
+            has_exp = true;
+            expo = (int)s.range(0, nz + 20);
+        }
+        c.label("leading_zero_run");
+        break;
+    }
+    default: // leading zeros before an ordinary number
+    {
+        lit.append((size_t)s.range(1, 300), '0');
+        digits((int)s.range(1, 17), false);
+        if (s.coin())
+        {
+            lit += '.';
+            digits((int)s.range(1, 8), false);
+        }
+        if (s.below(3) == 0)
+        {
+            has_exp = true;
+            expo = (int)s.range(-30, 30);
+        }
+        c.label("leading_zeros");
+    }
+    }
+    if (has_exp)
+    {
+        lit += s.coin() ? 'e' : 'E';
+        if (expo < 0)
+            lit += '-';
+        else if (s.coin())
+            lit += '+';
+        lit += std::to_string(expo < 0 ? -expo : expo);
+    }
+    static const unsigned char terms[] = {0, 0, 0, ' ', ',', 'x', 'f', ';', '-', '+', 'z', '\n', 0x80, 0xff, ')', 'g'};
+    unsigned char term = terms[s.below(sizeof terms)];
+    if (!has_exp && (term == 'e' || term == 'E'))
+        term = 0;
+    std::string text = lit;
+    if (term)
+    {
+        text += (char)term;
+        if (s.coin())
+            text += "1";
+    }
+    Exact blk(text.c_str(), text.size() + 1);
+    c.log("%s(\"%s\") literal length %zu term 0x%02x", pentry_name[pe], lit.c_str(), lit.size(), term);
+    c.label(pentry_name[pe]);
+    c.nontrivial = true;
+    check_parse(c, pe, lit, blk, term);
 }
 
 } // namespace
@@ -442,6 +566,10 @@ VP_TARGET("ftoa_sweep", t_ftoa_sweep,
           "exhaustive in the thorough tier: all 2^32 float bit patterns x precisions {-1,0,1,2,3,6,10} through igris_f32toa "
           "(blocks of 65536 patterns); quick: 512 blocks, one per sign/exponent",
           sweep_size);
+VP_TARGET("atof_long", t_atof_long,
+          "long literals of the same grammar: up to 80 significant digits, zero runs of 20..400 before or after the digits, leading "
+          "zeros, exponents that bring the value back into range; same oracle as atof (values outside the normal range of the "
+          "target type are compared for the end pointer only)");
 VP_TARGET("atof", t_atof,
           "literals of the grammar [+-]d*[.d*][(e|E)[+-]d+] (>= 1 digit, <= 19 significant digits, exponent to +-300) or host "
           "%.17g renderings, followed by a terminator byte, through igris_atof32, igris_atof64, igris_strtod and the libc "
